@@ -21,6 +21,8 @@ pub struct RouteTransport {
     a: DuplexClient,
     b: DuplexClient,
     bufsize: usize,
+    /// number of connections dialled through this transport (and its clones)
+    pub dials: std::sync::Arc<std::sync::atomic::AtomicUsize>,
 }
 
 impl tower::Service<http::request::Parts> for RouteTransport {
@@ -34,12 +36,13 @@ impl tower::Service<http::request::Parts> for RouteTransport {
         let host = req.uri.host().unwrap_or("").to_string();
         let c = if host.starts_with('b') { self.b.clone() } else { self.a.clone() };
         let bufsize = self.bufsize;
+        self.dials.fetch_add(1, std::sync::atomic::Ordering::SeqCst);
         Box::pin(async move { c.connect(bufsize).await })
     }
 }
 
 pub fn route(a: DuplexClient, b: DuplexClient, bufsize: usize) -> RouteTransport {
-    RouteTransport { a, b, bufsize }
+    RouteTransport { a, b, bufsize, dials: Default::default() }
 }
 
 #[derive(Clone, Debug, PartialEq, Eq)]
@@ -53,6 +56,8 @@ pub struct ReqSpec {
     pub upgrade: bool,
     /// request target is the root path with a query ("/?q=id") instead of "/r<id>?q=<id>"
     pub root_path: bool,
+    /// the caller supplies its own Host header (name-based virtual hosting: another name than the URI's)
+    pub custom_host: bool,
 }
 
 #[derive(Clone, Debug)]
@@ -103,6 +108,9 @@ async fn do_request(mut svc: ClientSvc, spec: ReqSpec, obs: Obs) {
         .uri(uri)
         .version(if spec.h2 { http::Version::HTTP_2 } else { http::Version::HTTP_11 })
         .header("x-id", spec.id.to_string());
+    if spec.custom_host {
+        b = b.header("host", format!("tenant-{}.example", spec.id));
+    }
     if spec.upgrade {
         b = b.header(http::header::UPGRADE, "test-proto").header(http::header::CONNECTION, "upgrade");
     }
@@ -193,7 +201,7 @@ pub fn run_one(scn: &Scn, schedule: &[usize]) -> Execution<Outcome> {
     let (cb, ib) = duplex::pair();
     spawn_origin!(s, ia, obs, "A");
     spawn_origin!(s, ib, obs, "B");
-    let transport = RouteTransport { a: ca.clone(), b: cb.clone(), bufsize: scn.bufsize };
+    let transport = RouteTransport { a: ca.clone(), b: cb.clone(), bufsize: scn.bufsize, dials: Default::default() };
     let svc: ClientSvc = if scn.h1_only_client {
         hyperdriver::Client::builder()
             .with_protocol(hyper::client::conn::http1::Builder::new())
@@ -296,6 +304,10 @@ pub fn run_one(scn: &Scn, schedule: &[usize]) -> Execution<Outcome> {
                 if seen.method != (if spec.post { "POST" } else { "GET" }) || seen.path != (if spec.root_path { "/".to_string() } else { format!("/r{}", spec.id) }) || seen.query != Some(format!("q={}", spec.id)) || seen.id_header != Some(spec.id.to_string()) || seen.body != want_body || seen.origin != want_origin {
                     viols.push(("request-altered".into(), format!("the server handled request {} as {seen:?}", spec.id)));
                 }
+                // headers the caller sent: its own Host header must arrive unchanged on an HTTP/1 connection
+                if spec.custom_host && seen.version != "HTTP/2.0" && seen.host != Some(format!("tenant-{}.example", spec.id)) {
+                    viols.push(("request-altered".into(), format!("request {} carried the caller's Host header tenant-{}.example but the server saw {:?}", spec.id, spec.id, seen.host)));
+                }
             }
         }
     }
@@ -316,7 +328,7 @@ pub fn run_one(scn: &Scn, schedule: &[usize]) -> Execution<Outcome> {
 }
 
 fn r(id: u32, origin: char, h2: bool, post: bool, chunks: u8) -> ReqSpec {
-    ReqSpec { id, origin, h2, post, chunks, upgrade: false, root_path: false }
+    ReqSpec { id, origin, h2, post, chunks, upgrade: false, root_path: false, custom_host: false }
 }
 
 pub fn scenarios(thorough: bool) -> Vec<Scn> {
@@ -330,10 +342,12 @@ pub fn scenarios(thorough: bool) -> Vec<Scn> {
         mk("two-origins-h1", vec![], vec![r(1, 'a', false, true, 1), r(2, 'b', false, true, 2)], 1024, true),
         mk("h1-small-buffer", vec![], vec![r(1, 'a', false, true, 2), r(2, 'a', false, true, 2)], 16, false),
         mk("h2-small-buffer", vec![], vec![r(1, 'a', true, true, 2), r(2, 'a', true, true, 2)], 16, false),
-        mk("upgrade-then-normal", vec![ReqSpec { id: 9, origin: 'a', h2: false, post: false, chunks: 0, upgrade: true, root_path: false }], vec![r(1, 'a', false, true, 1)], 1024, false),
+        mk("upgrade-then-normal", vec![ReqSpec { id: 9, origin: 'a', h2: false, post: false, chunks: 0, upgrade: true, root_path: false, custom_host: false }], vec![r(1, 'a', false, true, 1)], 1024, false),
         mk("root-path-with-query", vec![], vec![ReqSpec { root_path: true, ..r(1, 'a', false, true, 1) }, ReqSpec { root_path: true, ..r(2, 'a', true, false, 0) }], 1024, false),
         mk("two-origins-preludes", vec![r(8, 'a', false, true, 1), r(9, 'b', false, true, 1)], vec![r(1, 'a', false, true, 1), r(2, 'b', false, true, 1)], 1024, true),
     ];
+    // the caller's own Host header (another name than the URI authority)
+    v.push(mk("h1-caller-supplied-host", vec![ReqSpec { custom_host: true, ..r(9, 'a', false, true, 1) }], vec![ReqSpec { custom_host: true, ..r(1, 'a', false, true, 1) }, r(2, 'a', false, false, 0)], 1024, false));
     // requests that ask for HTTP/2 through a client whose protocol only speaks HTTP/1.1: the first
     // one's attempt is marked as multiplexed, the others wait for it, the connection that comes
     // back cannot be shared
@@ -477,4 +491,67 @@ fn replay(path: &str) -> i32 {
         println!("VIOLATION property=C01 replay={path}");
         1
     }
+}
+
+
+/// C15, configuration plumbing: the idle bound a caller configures through the public client
+/// builder must be the bound the pool enforces, whatever the order of the builder calls. Two
+/// sequential HTTP/1.1 requests to one origin under the deterministic executor: with
+/// `max_idle_per_host = 0` nothing may be kept, so the second request has to dial again; with 1 it
+/// must reuse. Returns (runs, violations).
+pub fn builder_pool_bound_runs() -> (u64, Vec<(String, String, serde_json::Value)>) {
+    let mut viols = vec![];
+    let mut n = 0u64;
+    for pool_first in [true, false] {
+        for max_idle in [0usize, 1] {
+            n += 1;
+            let mut s = Sched::new(vec![]);
+            let obs = new_obs();
+            let (ca, ia) = duplex::pair();
+            let (cb, ib) = duplex::pair();
+            spawn_origin!(s, ia, obs, "A");
+            spawn_origin!(s, ib, obs, "B");
+            let transport = route(ca.clone(), cb.clone(), 1024);
+            let dials = transport.dials.clone();
+            let mut cfg = hyperdriver::client::pool::Config::default();
+            cfg.max_idle_per_host = max_idle;
+            let svc: ClientSvc = if pool_first {
+                hyperdriver::Client::builder().with_protocol(HttpConnectionBuilder::<ChunkBody>::default()).with_pool(cfg).with_transport(transport).without_timeout().without_tls().with_body::<ChunkBody, Body>().build_service()
+            } else {
+                hyperdriver::Client::builder().with_protocol(HttpConnectionBuilder::<ChunkBody>::default()).with_transport(transport).with_pool(cfg).without_timeout().without_tls().with_body::<ChunkBody, Body>().build_service()
+            };
+            {
+                let obs = obs.clone();
+                s.spawn("caller", async move {
+                    for id in [1u32, 2] {
+                        do_request(svc.clone(), r(id, 'a', false, true, 1), obs.clone()).await;
+                        // let the hand-back task run before the next request is issued
+                        for _ in 0..4 {
+                            yield_now().await;
+                        }
+                    }
+                });
+            }
+            s.run();
+            let ok = {
+                let o = obs.lock().unwrap();
+                [1u32, 2].iter().all(|id| matches!(o.responses.get(id), Some(Ok(_))))
+            };
+            let d = dials.load(std::sync::atomic::Ordering::SeqCst);
+            s.teardown();
+            drop((ca, cb));
+            let want = if max_idle == 0 { 2 } else { 1 };
+            let order = if pool_first { "with_pool before with_transport" } else { "with_transport before with_pool" };
+            if !ok {
+                viols.push((format!("builder-bound request-failed order={pool_first}"), format!("two sequential requests through a client built with {order}, max_idle_per_host={max_idle}: a request failed"), json!({"engine":"c15-builder","pool_first":pool_first,"max_idle":max_idle})));
+            } else if d != want {
+                viols.push((
+                    format!("builder-bound-not-enforced max_idle={max_idle} pool_first={pool_first}"),
+                    format!("client built with {order} and max_idle_per_host={max_idle}: two sequential HTTP/1.1 requests dialled {d} connection(s), the configured bound requires {want} ({})", if max_idle == 0 { "nothing may be kept idle" } else { "one idle connection is kept and reused" }),
+                    json!({"engine":"c15-builder","pool_first":pool_first,"max_idle":max_idle}),
+                ));
+            }
+        }
+    }
+    (n, viols)
 }
